@@ -2,8 +2,8 @@
 from props import matcher_common as mc
 
 NAMESPACE = 'C01'
-LEAN_TARGETS = ['MxV.Props.C01', 'MxV.Props.Slotted']
-THEOREMS = ['C01_tame', 'C01_reachable', 'C01_schema', 'C01_tree', 'Slotted.C01_slotted', 'Slotted.C01_slotted_schema', 'Slotted.slotted_count', 'Slotted.tame_subset_slotted']
+LEAN_TARGETS = ['MxV.Props.C01', 'MxV.Props.Slotted', 'MxV.Tables.D_witnesses_C01']
+THEOREMS = ['C01_tame', 'C01_reachable', 'C01_schema', 'C01_tree', 'Slotted.C01_slotted', 'Slotted.C01_slotted_schema', 'Slotted.slotted_count', 'Slotted.tame_subset_slotted', 'fails_on_wild_models']
 TRUSTED_BASE = ['Lean 4.33.0 kernel', 'axioms: propext, Quot.sound, Classical.choice only (audited per theorem)',
                 'translator extract/*.py (templates regenerated every run; C03.templates_lang_eq re-decided)',
                 'correspondence harness (real library vs Mfull on all 94 types, vs Msimple on the 68 Tame types)',
